@@ -1114,11 +1114,17 @@ func (c *compiler) evalStatement(node ast.Statement) (interface{}, error) {
 	switch t := node.(type) {
 	case *ast.ExpressionStatement:
 		s, err := c.evalExpression(t.Expression)
-		switch s.(type) {
-		case exitBlockStatment, ast.Printable, template.HTML:
+		if _, ok := t.Expression.(*ast.HTMLLiteral); ok {
+			// literal text between tags is part of the block's output
 			return s, err
 		}
 
+		switch s.(type) {
+		case exitBlockStatment, ast.Printable:
+			return s, err
+		}
+
+		// the value of a <% %> tag is discarded, as it is at top level
 		return nil, err
 	case *ast.ReturnStatement:
 		return c.evalReturnStatement(t)
